@@ -117,6 +117,45 @@ def generate(rng, tier):
             toks = ["method=0", f"speed={sp},{rng.randint(0, sp)}"]
             info = {"expert": False, "req": {}, "track": False, "skip": None}
             cases.append(case(g, toks, info, ("gen:symbol-table-boundary",)))
+    # ---- (a3) int32 attributes whose value range sits exactly on / next to the limit of the wrap transform
+    #      (max - min = 2^31 - 2, 2^31 - 1, 2^31): the encoder must drop the prediction exactly when the decoder's
+    #      InitCorrectionBounds would refuse the range
+    for lo, hi in [(0, 2 ** 31 - 1), (-2 ** 30, 2 ** 30 - 1), (-2 ** 31, -1), (1, 2 ** 31 - 1), (-2 ** 31, 0), (-2 ** 30, 2 ** 30 - 2), (-2 ** 30 - 1, 2 ** 30 - 1)]:
+        for kind in (["pc", "mesh"] if thorough else [rng.choice(["pc", "mesh"])]):
+            nc = rng.choice([1, 2, 3])
+            n = rng.choice([4, 9, 30])
+            rows = [[rng.choice([lo, hi, rng.randint(lo, hi)]) for _ in range(nc)] for _ in range(n)]
+            rows[rng.randrange(n)][rng.randrange(nc)] = lo
+            rows[rng.randrange(n)][rng.randrange(nc)] = hi
+            if not any(v == lo for r in rows for v in r):
+                rows[0][0] = lo
+            if not any(v == hi for r in rows for v in r):
+                rows[-1][-1] = hi
+            vals = b"".join(_st.pack("<" + "i" * nc, *r) for r in rows)
+            att = G.Attr(G.GENERIC, G.DT["i32"], nc, False, 1, n, None, vals)
+            if kind == "pc":
+                g = G.Geom(False, n, [], [att])
+            else:
+                pos = G.Attr(G.POSITION, G.DT["f32"], 3, False, 0, n, None, b"".join(_st.pack("<3f", float(i), float(i * i % 7), 0.0) for i in range(n)))
+                g = G.Geom(True, n, [(i, (i + 1) % n, (i + 2) % n) for i in range(n - 2)], [pos, att])
+            g.family = "wrap_range_limit"
+            toks = [f"method={rng.choice([0, 0, 1]) if kind == 'mesh' else 0}", f"speed={rng.randint(0, 10)},{rng.randint(0, 10)}"]
+            info = {"expert": False, "req": {}, "track": False, "skip": None}
+            cases.append(case(g, toks, info, ("gen:wrap-range-limit", f"range:{hi - lo - (2 ** 31 - 1):+d}")))
+    # ---- (a4) sequential meshes at the point counts where the raw index width switches (256; 65536 in the thorough tier)
+    for n in ([255, 256, 257, 65535, 65536, 65537] if thorough else [255, 256, 257]):
+        vals = bytes(rng.getrandbits(8) for _ in range(3 * n))
+        att = G.Attr(G.POSITION, G.DT["u8"], 3, False, 0, n, None, vals)
+        if n < 1000:
+            faces = [(i, (i + 1) % n, (i + 2) % n) for i in range(n)]
+        else:
+            faces = [(0, 1, 2), (n - 3, n - 2, n - 1), (n - 1, 0, n // 2), (255, 256, 257), (65534, 65533, 65532)]
+        g = G.Geom(True, n, faces, [att])
+        g.family = "index_width_boundary"
+        for cc in (0, 1):
+            toks = ["expert=1", "method=0", f"g:compress_connectivity={cc}", f"speed={rng.randint(0, 10)},{rng.randint(0, 10)}"]
+            info = {"expert": True, "req": {}, "track": False, "skip": None}
+            cases.append(case(g, toks, info, ("gen:index-width-boundary", f"points:{n}")))
     reps = 4 if thorough else 1
     for _ in range(reps):
         # ---- (b1) every method class x every encoder speed (decoder speed random)
@@ -201,6 +240,8 @@ def generate(rng, tier):
     # the Edgebreaker decoder model driven through every branch on purpose (standard / valence traversal, split
     # events, holes, seams, all mesh prediction schemes); reached branches show as eb:* in input_distribution
     cases += ebcases.cases(rng, tier)
+    # every tiny mesh / stacks of small closed components through the Edgebreaker encoder and decoder (header checks)
+    cases += ebcases.tiny_mesh_cases(rng, tier)
     # Edgebreaker ENCODER model vs the real encoder, byte for byte (choices read back: symbol schemes, crease flags)
     cases += ebenc_cases.cases(rng, tier)
     # kd-tree: every level 0..6, dimensions 1..20, all integer types at their limits, 1..30 bit quantization, and the
